@@ -71,6 +71,7 @@ fn write_float_value<W>(writer: &mut W, n: f32) -> io::Result<()>
 where
     W: Write,
 {
+    let n = value::validate_float(n)?;
     value::write_value(writer, Some(Value::Float(Some(Float::Value(n)))))
 }
 
@@ -234,17 +235,9 @@ where
 {
     let vs: Vec<_> = values
         .iter()
-        .map(|result| {
-            let v = match result? {
-                Some(n) => Float::from(n),
-                None => Float::Missing,
-            };
-
-            match v {
-                Float::Value(n) => Ok(n),
-                Float::Missing => Ok(f32::from(v)),
-                _ => todo!("unhandled f32 array value: {:?}", v),
-            }
+        .map(|result| match result? {
+            Some(n) => value::validate_float(n),
+            None => Ok(f32::from(Float::Missing)),
         })
         .collect::<io::Result<_>>()?;
 
